@@ -8,7 +8,7 @@ use std::{
 use crate::{
     CompileOptions, TypedExpr, TypedFnDef, TypedPattern, TypedProgram, TypedStmt,
     ast::{
-        Accessor, BuiltInFnCall, ConstExpr, ConstExprEnum, EnumDef, Expr, ExprEnum, Op, Pattern,
+        Accessor, BuiltInFnCall, ConstExpr, ConstExprEnum, EnumDef, ExprEnum, Op, Pattern,
         PatternEnum, StmtEnum, StructDef, Type, UnaryOp, VariantExprEnum,
     },
     circuit::{Circuit, CircuitBuilder, CircuitBuilderOptions, GateIndex, PanicReason, USIZE_BITS},
